@@ -134,6 +134,226 @@ pub mod cn {
             lemma_run_fix(t, 0, false, Seq::<usize>::empty());
         }
     }
+    // --- unbounded lemma: every output of canon is in canonical form (the other half of idempotence)
+    pub proof fn lemma_comp_end_shift(a: Seq<u8>, x: Seq<u8>, i: int)
+        requires 0 <= i <= x.len()
+        ensures comp_end(a + x, a.len() + i) == a.len() + comp_end(x, i)
+        decreases x.len() - i
+    {
+        let t = a + x;
+        if i < x.len() {
+            assert(t[a.len() + i] == x[i]);
+            if !sep(x[i]) { lemma_comp_end_shift(a, x, i + 1); }
+        }
+    }
+    pub proof fn lemma_cf_shift(a: Seq<u8>, x: Seq<u8>, i: int, ns: bool)
+        requires 0 <= i
+        ensures canonical_from(a + x, a.len() + i, ns) == canonical_from(x, i, ns)
+        decreases x.len() + 3 - i
+    {
+        let t = a + x;
+        let n = a.len() as int;
+        if i < x.len() {
+            assert(t[n + i] == x[i]);
+            if i + 1 < x.len() { assert(t[n + i + 1] == x[i + 1]); }
+            if i + 2 < x.len() { assert(t[n + i + 2] == x[i + 2]); }
+            assert(dotdot_at(t, n + i) == dotdot_at(x, i));
+            if sep(x[i]) {
+            } else if x[i] == DOT && (i + 1 >= x.len() || sep(x[i + 1])) {
+            } else if dotdot_at(x, i) {
+                lemma_cf_shift(a, x, i + 3, false);
+            } else {
+                lemma_comp_end(x, i);
+                lemma_comp_end_shift(a, x, i);
+                lemma_cf_shift(a, x, comp_end(x, i), true);
+            }
+        }
+    }
+    /// x may follow a canonical prefix in which a name has (ns) / has not yet been seen
+    pub open spec fn cont_ok(x: Seq<u8>, ns: bool) -> bool { canonical_from(x, 0, ns) }
+    /// pre is a canonical prefix ending at a component boundary: any such continuation keeps the whole canonical
+    pub open spec fn good(pre: Seq<u8>, ns: bool, p: int) -> bool {
+        forall|x: Seq<u8>| #[trigger] cont_ok(x, ns) ==> canonical_from(pre + x, p, false)
+    }
+    pub open spec fn pref(out: Seq<u8>, st: Seq<usize>, k: int) -> Seq<u8> { if 0 <= k < st.len() { out.take(st[k] as int) } else { out } }
+    /// the output so far and every point the component stack can cut it back to are good prefixes
+    pub open spec fn fam(out: Seq<u8>, st: Seq<usize>, p: int) -> bool {
+        &&& 0 <= p <= out.len() && stack_ok(st, out.len() as int) && (forall|k: int| 0 <= k < st.len() ==> p <= #[trigger] st[k])
+        &&& forall|k: int| 0 <= k <= st.len() ==> good(#[trigger] pref(out, st, k), k > 0, p)
+    }
+    /// an ordinary component (as `run` classifies it) may follow any good prefix
+    pub proof fn lemma_ordinary_cont(s: Seq<u8>, src: int, x: Seq<u8>, ns: bool)
+        requires 0 <= src < s.len(), !sep(s[src]), !(s[src] == DOT && src + 1 >= s.len()), !(s[src] == DOT && sep(s[src + 1])), !dotdot_at(s, src),
+            comp_end(s, src) < s.len() || sep(s[comp_end(s, src) - 1]) || x.len() == 0,
+            cont_ok(x, true) || x.len() == 0,
+        ensures cont_ok(s.subrange(src, comp_end(s, src)) + x, ns)
+    {
+        lemma_comp_end(s, src);
+        let e = comp_end(s, src);
+        let c = s.subrange(src, e);
+        let t = c + x;
+        assert(t[0] == s[src]);
+        if c.len() >= 2 { assert(t[1] == s[src + 1]); }
+        if c.len() >= 3 { assert(t[2] == s[src + 2]); }
+        // a component that starts with `.` has a second byte that is no separator; one that starts with `..` a third
+        if s[src] == DOT { assert(!sep(s[src + 1])); assert(e >= src + 2) by { if e < src + 2 { assert(e == src + 1); } } }
+        if s[src] == DOT && s[src + 1] == DOT { assert(src + 2 < s.len() && !sep(s[src + 2])); assert(e >= src + 3) by { if e < src + 3 { assert(e == src + 2); } } }
+        assert(!dotdot_at(t, 0));
+        assert(!sep(t[0]));
+        assert(!(t[0] == DOT && (1 >= t.len() || sep(t[1])))) by { if t[0] == DOT { assert(c.len() >= 2); assert(t[1] == s[src + 1]); } }
+        // the component ends where c ends
+        if sep(c[c.len() - 1]) {
+            assert forall|j: int| 0 <= j < c.len() - 1 implies !sep(#[trigger] t[j]) by { assert(t[j] == s[src + j]); }
+            assert(t[c.len() - 1] == c[c.len() - 1]);
+            lemma_comp_end_is(t, 0, c.len() as int);
+            lemma_cf_shift(c, x, 0, true);
+            assert(canonical_from(t, c.len() as int, true) == canonical_from(x, 0, true));
+            if x.len() == 0 { assert(canonical_from(t, c.len() as int, true)); }
+            assert(canonical_from(t, 0, ns) == canonical_from(t, comp_end(t, 0), true));
+        } else {
+            assert(x.len() == 0);
+            assert(t =~= c);
+            assert forall|j: int| 0 <= j < c.len() - 1 implies !sep(#[trigger] t[j]) by { assert(t[j] == s[src + j]); }
+            lemma_comp_end_is(t, 0, t.len() as int);
+            assert(canonical_from(t, t.len() as int, true));
+            assert(canonical_from(t, 0, ns) == canonical_from(t, comp_end(t, 0), true));
+        }
+    }
+    pub proof fn lemma_run_canon(s: Seq<u8>, src: int, out: Seq<u8>, st: Seq<usize>, p: int)
+        requires 0 <= src, fam(out, st, p), out.len() <= src, s.len() <= usize::MAX
+        ensures ({ let r = run(s, src, out, st); r.len() >= p && r.take(p) == out.take(p) && canonical_from(r, p, false) })
+        decreases s.len() + 3 - src
+    {
+        let ns0 = st.len() > 0;
+        assert(good(pref(out, st, st.len() as int), ns0, p));
+        assert(pref(out, st, st.len() as int) == out);
+        if src >= s.len() || (s[src] == DOT && src + 1 >= s.len()) {
+            if src < s.len() && sep(s[src]) { lemma_run_canon(s, src + 1, out, st, p); } else {
+                let e = Seq::<u8>::empty();
+                assert(cont_ok(e, ns0));
+                assert(out + e =~= out);
+            }
+        } else if sep(s[src]) {
+            lemma_run_canon(s, src + 1, out, st, p);
+        } else if s[src] == DOT && sep(s[src + 1]) {
+            lemma_run_canon(s, src + 2, out, st, p);
+        } else if dotdot_at(s, src) {
+            if st.len() > 0 {
+                let out2 = out.take(st.last() as int);
+                let st2 = st.drop_last();
+                assert(fam(out2, st2, p)) by {
+                    assert forall|k: int| 0 <= k <= st2.len() implies good(#[trigger] pref(out2, st2, k), k > 0, p) by {
+                        if k < st2.len() {
+                            assert(st[k] <= st[st.len() - 1]);
+                            assert(pref(out2, st2, k) =~= pref(out, st, k));
+                        } else {
+                            assert(pref(out2, st2, k) =~= pref(out, st, st.len() - 1));
+                        }
+                    }
+                    assert(stack_ok(st2, out2.len() as int)) by {
+                        assert forall|k: int| 0 <= k < st2.len() implies #[trigger] st2[k] <= out2.len() by { assert(st[k] <= st[st.len() - 1]); }
+                    }
+                }
+                lemma_run_canon(s, src + 3, out2, st2, p);
+                assert(out2.take(p) =~= out.take(p));
+            } else {
+                let dd = seq![DOT, DOT] + (if src + 2 < s.len() { seq![s[src + 2]] } else { Seq::<u8>::empty() });
+                let out2 = out + seq![DOT, DOT] + (if src + 2 < s.len() { seq![s[src + 2]] } else { Seq::<u8>::empty() });
+                assert(out2 =~= out + dd);
+                if src + 2 < s.len() {
+                    assert(fam(out2, st, p)) by {
+                        assert forall|x: Seq<u8>| #[trigger] cont_ok(x, false) implies canonical_from(out2 + x, p, false) by {
+                            let y = dd + x;
+                            assert(y[0] == DOT && y[1] == DOT && y[2] == s[src + 2]);
+                            lemma_cf_shift(dd, x, 0, false);
+                            assert(cont_ok(y, false));
+                            assert(out2 + x =~= out + y);
+                        }
+                        assert(pref(out2, st, 0) == out2);
+                    }
+                    lemma_run_canon(s, src + 3, out2, st, p);
+                    assert(out2.take(p) =~= out.take(p));
+                } else {
+                    assert(dd.len() == 2 && dd[0] == DOT && dd[1] == DOT);
+                    assert(dotdot_at(dd, 0));
+                    assert(canonical_from(dd, 3, false));
+                    assert(cont_ok(dd, false));
+                    assert(run(s, src + 3, out2, st) == out2);
+                    assert(out2.take(p) =~= out.take(p));
+                }
+            }
+        } else {
+            lemma_comp_end(s, src);
+            let e = comp_end(s, src);
+            let c = s.subrange(src, e);
+            let out2 = out + c;
+            let st2 = st.push(out.len() as usize);
+            assert(out.len() as usize == out.len());
+            assert(st2[st.len() as int] == out.len());
+            assert(out2.take(p) =~= out.take(p));
+            if e < s.len() || sep(s[e - 1]) {
+                assert(fam(out2, st2, p)) by {
+                    assert forall|k: int| 0 <= k <= st2.len() implies good(#[trigger] pref(out2, st2, k), k > 0, p) by {
+                        if k < st.len() {
+                            assert(pref(out2, st2, k) =~= pref(out, st, k));
+                        } else if k == st.len() {
+                            assert(pref(out2, st2, k) =~= out);
+                        } else {
+                            assert(pref(out2, st2, k) == out2);
+                            assert forall|x: Seq<u8>| #[trigger] cont_ok(x, true) implies canonical_from(out2 + x, p, false) by {
+                                lemma_ordinary_cont(s, src, x, ns0);
+                                assert(out2 + x =~= out + (c + x));
+                            }
+                        }
+                    }
+                    assert(stack_ok(st2, out2.len() as int)) by {
+                        assert forall|k: int| 0 <= k < st2.len() implies #[trigger] st2[k] <= out2.len() by { if k < st.len() { assert(st2[k] == st[k]); } }
+                        assert forall|a: int, b: int| 0 <= a < b < st2.len() implies st2[a] <= st2[b] by { if b < st.len() { assert(st2[a] == st[a] && st2[b] == st[b]); } else { assert(st2[a] == st[a]); } }
+                    }
+                    assert forall|k: int| 0 <= k < st2.len() implies p <= #[trigger] st2[k] by { if k < st.len() { assert(st2[k] == st[k]); } }
+                }
+                lemma_run_canon(s, e, out2, st2, p);
+            } else {
+                // last component, no trailing separator: the run ends here
+                lemma_ordinary_cont(s, src, Seq::<u8>::empty(), ns0);
+                assert(c + Seq::<u8>::empty() =~= c);
+                assert(run(s, e, out2, st2) == out2);
+            }
+        }
+    }
+    pub proof fn lemma_canon_canonical(s: Seq<u8>)
+        requires 0 < s.len() <= usize::MAX
+        ensures is_canonical(canon(s))
+    {
+        let st = Seq::<usize>::empty();
+        if sep(s[0]) {
+            let out = seq![s[0]];
+            assert(fam(out, st, 1)) by {
+                assert forall|x: Seq<u8>| #[trigger] cont_ok(x, false) implies canonical_from(out + x, 1, false) by { lemma_cf_shift(out, x, 0, false); }
+                assert(pref(out, st, 0) == out);
+            }
+            lemma_run_canon(s, 1, out, st, 1);
+            let r = run(s, 1, out, st);
+            assert(r.take(1) =~= out);
+            assert(r.take(1)[0] == r[0]);
+            assert(r[0] == s[0]);
+        } else {
+            let out = Seq::<u8>::empty();
+            assert(fam(out, st, 0)) by {
+                assert forall|x: Seq<u8>| #[trigger] cont_ok(x, false) implies canonical_from(out + x, 0, false) by { assert(out + x =~= x); }
+                assert(pref(out, st, 0) == out);
+            }
+            lemma_run_canon(s, 0, out, st, 0);
+        }
+    }
+    /// C13: canonicalisation is idempotent (for every non-empty path)
+    pub proof fn lemma_canon_idempotent(s: Seq<u8>)
+        requires 0 < s.len() <= usize::MAX
+        ensures canon(canon(s)) == canon(s)
+    {
+        lemma_canon_canonical(s);
+        lemma_canon_fix(canon(s));
+    }
     /// the location a path denotes, lexically: how many levels above the start (or root) it climbs, then which names it descends
     #[via_fn]
     proof fn loc_dec(t: Seq<u8>, i: int, ups: int, names: Seq<Seq<u8>>) {
